@@ -618,6 +618,97 @@ m("d7-marker-parsed-unsigned", ["C09", "C02", "C20"], "D7", "marker-parse-accept
 m("u5-authenticated-by-password-count", ["C11"], "U5", "authenticated-iff-nopassword", "a new connection is authenticated when the default user has no stored password",
   (ACL, 'Authenticated: defaultUser.NoPassword,', 'Authenticated: len(defaultUser.Passwords) == 0,'))
 
+# --- added with batch 4 ---
+m("tm-ltrim-deletes-before-type-check", ["C15"], "TM", "handleLTrim|DeleteKey", "LTRIM deletes the key for an empty range before it has looked at the stored value",
+  ('internal/modules/list/commands.go', """		return nil, fmt.Errorf("end index must be an integer")
+	}
+
+	list, ok := params.GetValues(params.Context, []string{key})[key].([]string)
+	if !ok {
+		return nil, errors.New("LTRIM command on non-list item")
+	}
+""", """		return nil, fmt.Errorf("end index must be an integer")
+	}
+	if start >= 0 && end >= 0 && start > end {
+		if err = params.DeleteKey(params.Context, key); err != nil {
+			return nil, err
+		}
+		return []byte(constants.OkResponse), nil
+	}
+
+	list, ok := params.GetValues(params.Context, []string{key})[key].([]string)
+	if !ok {
+		return nil, errors.New("LTRIM command on non-list item")
+	}
+"""))
+m("lc-subtract-decrements-for-other-set", ["C16"], "LC", "Subtract|set.Set-length-update", "Subtract decrements the cached cardinality of the result for members tested on the subtrahend",
+  ('internal/modules/set/set.go', """			if diff.Contains(k) {
+				remove = append(remove, k)
+			}""", """			if s.Contains(k) {
+				delete(diff.members, k)
+				diff.length -= 1
+			}"""))
+m("dc-hdel-counts-before-deleting", ["C14"], "DC", "handleHDEL|count-step", "HDEL counts the present fields in one pass and deletes in another",
+  ('internal/modules/hash/commands.go', """	for _, field := range fields {
+		if hash[field] != nil {
+			delete(hash, field)
+			count += 1
+		}
+	}
+""", """	for _, field := range fields {
+		if hash[field] != nil {
+			count += 1
+		}
+	}
+	for _, field := range fields {
+		delete(hash, field)
+	}
+"""))
+m("dc-del-stale-existence-snapshot", ["C01"], "DC", "handleDel|count-step", "DEL walks its arguments and tests each against an existence snapshot taken before the loop",
+  (GEN, """	for key, exists := range params.KeysExist(params.Context, keys.WriteKeys) {
+		if !exists {
+			continue
+		}""", """	existsMap := params.KeysExist(params.Context, keys.WriteKeys)
+	for _, key := range keys.WriteKeys {
+		if !existsMap[key] {
+			continue
+		}"""))
+m("lp-punsubscribe-explicit-unlock", ["C12", "C05"], "LP", "Unsubscribe|pubsub.PubSub.channelsRWMut", "PUNSUBSCRIBE releases the channel table by an explicit unlock after the loops (glob.MustCompile panics inside)",
+  ('internal/modules/pubsub/pubsub.go', """func (ps *PubSub) Unsubscribe(_ context.Context, conn *net.Conn, channels []string, withPattern bool) []byte {
+	ps.channelsRWMut.RLock()
+	defer ps.channelsRWMut.RUnlock()
+""", """func (ps *PubSub) Unsubscribe(_ context.Context, conn *net.Conn, channels []string, withPattern bool) []byte {
+	ps.channelsRWMut.RLock()
+"""),
+  ('internal/modules/pubsub/pubsub.go', """	res := fmt.Sprintf("*%d\\r\\n", len(unsubscribed))
+	for key, value := range unsubscribed {""", """	ps.channelsRWMut.RUnlock()
+	res := fmt.Sprintf("*%d\\r\\n", len(unsubscribed))
+	for key, value := range unsubscribed {"""))
+m("mv-smove-adds-before-removing", ["C16"], "MV", "Move|insert-then-remove", "Set.Move inserts into the destination before it removes from the source",
+  ('internal/modules/set/set.go', """	set.Remove([]string{e})
+	destination.Add([]string{e})""", """	destination.Add([]string{e})
+	set.Remove([]string{e})"""))
+m("mv-rename-unguarded", ["C01"], "MV", "handleRename|write-then-delete", "RENAME no longer compares the two names",
+  (GEN, """	if oldKey == newKey {
+		return []byte("+OK\\r\\n"), nil
+	}
+""", ""))
+m("sr-lrem-no-step-back", ["C15"], "SR", "handleLRem|remove-at-index", "LREM (count 0) does not step back after a removal",
+  ('internal/modules/list/commands.go', """				absoluteCount += 1
+				// The next element has moved into position i: look at it too.
+				i--
+""", """				absoluteCount += 1
+"""))
+m("fc-created-channels-appended-after-loop", ["C18"], "FC", "Subscribe|created-element-enters-table", "channels created by SUBSCRIBE are appended to the table after the loop",
+  ('internal/modules/pubsub/pubsub.go', """				ps.channels = append(ps.channels, newChan)
+			}""", """				created = append(created, newChan)
+			}"""),
+  ('internal/modules/pubsub/pubsub.go', """	for i := 0; i < len(channels); i++ {
+		// Check if channel with given name exists""", """	var created []*Channel
+	defer func() { ps.channels = append(ps.channels, created...) }()
+	for i := 0; i < len(channels); i++ {
+		// Check if channel with given name exists"""))
+
 out = os.path.join(os.path.dirname(os.path.dirname(os.path.abspath(__file__))), 'mutants', 'mutants.json')
 os.makedirs(os.path.dirname(out), exist_ok=True)
 open(out, 'w').write(json.dumps(M, indent=1) + '\n')
